@@ -672,7 +672,6 @@ func constValueProbe(c *core.Ctx, p *load.Prog) {
 	c.Floor("probed_constants", 30)
 }
 
-
 // flagGrouping: R7. The value of `A | B << 4` depends on how a chain of
 // operators without parentheses is grouped; this parser has no precedence and
 // groups to the right: a op (b op (c …)). Whatever the shape of the code (the
